@@ -1074,7 +1074,7 @@ def plan_C13(tier, seed):
     jobs = []
     total = 200000 if q else 2000000
     for kind in ["SMA", "WMA", "SD", "BB", "MAD", "CCI", "MFI", "MIN", "MAX"]:
-        combos = [(rng.choice([2, 3, 5, 9, 14, 20, 33, 40]), 1, 1000), (rng.choice([100, 256, 500, 1000]), 1, 46)]
+        combos = [(rng.choice([2, 3, 5, 9, 14, 20, 33, 40]), 1, 1000), (rng.choice([100, 256, 500, 1000]), 1, 46), (1, 1, 1000)]
         if not q:
             combos += [(rng.choice([1, 2, 4, 7, 12, 26, 40]), 1, 1000), (rng.choice([64, 128, 333, 1000]), 1, 46), (rng.choice([9, 20]), 10, 1000)]
         for k, (n, lo, hi) in enumerate(combos):
@@ -1236,6 +1236,14 @@ def plan_C15(tier, seed):
             for _ in range(rng.randint(0, 3)):
                 ops.insert(rng.randrange(len(ops)), {"op": "reset", "i": 1})
             jobs.append(scripted("%s_str%d_n%d" % (kind, rep, n), {1: a}, [new_op(1)] + ops, noovf=False, invariants=inv))
+    # the composite obtained through Default::default() against parts built with the DOCUMENTED defaults (C11's table)
+    DOC_DEFAULTS = {"BB": (9, 1, 1, 2), "KC": (10, 1, 1, 2), "CE": (22, 1, 1, 3), "MACD": (12, 26, 9, 2), "PPO": (12, 26, 9, 2),
+                    "SLOW_STOCH": (14, 3, 1, 2), "ATR": (14, 1, 1, 2), "CCI": (20, 1, 1, 2), "RSI": (14, 1, 1, 2)}
+    for kind, (n, n2, n3, m) in DOC_DEFAULTS.items():
+        a = cfg(kind, n, n2=n2, n3=n3, m=Fr(m), dflt=True)
+        L = 150 if q else 600
+        ops = [b_op(1, b) for b in rand_bars(rng, L)] if kind in ("CCI", "CE", "KC") else [s_op(1, x) for x in stream_patterns(rng, L, 1, 30, lively=True)]
+        jobs.append(scripted("%s_default" % kind, {1: a}, [new_op(1)] + ops, noovf=False, invariants=inv))
     return {
         "jobs": jobs, "parallel": 12,
         "min_counts": {"wired_parts_compared": 9 * 500},
@@ -1373,7 +1381,7 @@ def validate_trace(prop, d, how):
     meta = json.load(open(os.path.join(d, "cfgs.json")))
     cfgs = {}
     for k, c in meta["cfgs"].items():
-        cfgs[int(k)] = {"kind": c["kind"], "n": c["n"], "n2": c["n2"], "n3": c["n3"], "m": Fr(c["m"][0], c["m"][1]), "seed": Fr(c["seed"][0], c["seed"][1])}
+        cfgs[int(k)] = {"kind": c["kind"], "n": c["n"], "n2": c["n2"], "n3": c["n3"], "m": Fr(c["m"][0], c["m"][1]), "seed": Fr(c["seed"][0], c["seed"][1]), "dflt": False}
     for f in os.listdir(tlagen.SPEC_DIR):
         if f.endswith(".tla"):
             shutil.copy(os.path.join(tlagen.SPEC_DIR, f), d)
